@@ -330,7 +330,7 @@ def call_post(prop):
                 res.oblige(p, f'{prop}.call.chunker_built_in_this_call', z3.BoolVal(len(p.events('make_chunker')) == 1))
             for e in p.events('make_chunker'):
                 a = e.data['args']
-                key = Opt(BYTES).val(a[2].z) if isinstance(a[2].ty, Opt) else sym.lift(a[2], BYTES).z
+                key = Opt(BYTES).val(a[2].z) if isinstance(a[2], SV) and isinstance(a[2].ty, Opt) else sym.lift(a[2], BYTES).z
                 # C10.call.params: 16 key bytes, a deterministic function of the argument
                 res.oblige(p.pc_at(e), f'{prop}.call.key_is_16_bytes', z3.Length(key) == 16, tag='helper')
                 res.oblige(p.pc_at(e), f'{prop}.call.bounds_forwarded', z3.And(a[0].z == b.m.z, a[1].z == b.M.z))
